@@ -23,7 +23,7 @@ SPEC = dict(
                  "default messages/scope as documented"],
     required=["sibling_sets", "loads_compared", "show_compared", "dry_update_compared", "bool_spelling:yes",
               "bool_spelling:on", "bool_spelling:1", "bool_spelling:TRUE", "bool_spelling:no", "glob_entries",
-              "legacy_section_loads"],
+              "legacy_section_loads", "explicit_self_entries_with_extra_pattern"],
     anchors=[("config", "_parse_cfg"), ("config", "_parse_toml"), ("config", "_parse_config"),
              ("config", "_parse_cfg_file_patterns"), ("config", "_iter_glob_expanded_file_patterns"),
              ("config", "_parse_raw_config")],
@@ -105,6 +105,8 @@ def gen_abstract(R, tdy):
             key = fn.split(".")[0] + ".*"
         entries.append((key, fn, pats))
     a["entries"] = entries
+    # the config file may list itself, with a second pattern for another line of the config file
+    a["self_entry"] = R.choice([None, None, "default-only", "with-extra", "with-extra"])
     return a
 
 
@@ -112,6 +114,8 @@ def serialise(a, syntax, R):
     fname, kind, sect = syntax
     lines = []
     spelled = {}
+    if a.get("self_entry") == "with-extra":
+        lines.append(f"# released as {a['cur']} !")
     if kind == "toml":
         q = projects.toml_str
         lines += [f"[{sect}]", f"current_version = {q(a['cur'])}", f"version_pattern = {q(a['vp'])}"]
@@ -122,6 +126,9 @@ def serialise(a, syntax, R):
             if k in a:
                 lines.append(f"{k} = {'true' if a[k] else 'false'}")
         lines += ["", f"[{sect}.file_patterns]"]
+        if a.get("self_entry"):
+            own = ['current_version = "{version}"'] + (["released as {version} !"] if a["self_entry"] == "with-extra" else [])
+            lines.append(f"{q(fname)} = [" + ", ".join(q(p) for p in own) + "]")
         for key, _fn, pats in a["entries"]:
             lines.append(f"{q(key)} = [" + ", ".join(q(p) for p in pats) + "]")
     else:
@@ -142,6 +149,11 @@ def serialise(a, syntax, R):
                 spelled[k] = sp
                 lines.append(f"{k} = {sp}")
         lines += ["", f"[{sect}:file_patterns]"]
+        if a.get("self_entry"):
+            lines.append(f"{fname} =")
+            lines.append("    current_version = " + ('"{version}"' if quoted else "{version}"))
+            if a["self_entry"] == "with-extra":
+                lines.append("    released as {version} !")
         for key, _fn, pats in a["entries"]:
             lines.append(f"{key} =")
             for p in pats:
@@ -243,6 +255,13 @@ def run_case(ctx, case):
                           observed=desc)
         own = cfg.file_patterns.get(r["fname"])
         cv_line = [ln for ln in r["text"].splitlines() if ln.startswith("current_version")][0]
+        if a.get("self_entry") == "with-extra":
+            ctx.count("explicit_self_entries_with_extra_pattern")
+            norm_extra = projects.normalize(mods, a["vp"], "released as {version} !", a["legacy"])
+            if not own or norm_extra not in [p.raw_pattern for p in own]:
+                ctx.violation("other:explicit_self_entry_lost", f"{tag}: the config file lists itself with the extra "
+                              f"pattern 'released as {{version}} !', loaded: {[p.raw_pattern for p in own or []]}",
+                              case=case, observed=desc)
         if not own or not any(p.regexp.search(cv_line) for p in own):
             ctx.violation("other:own_current_version_line_missing", f"{tag}: patterns for the config file itself: "
                           f"{[p.raw_pattern for p in own or []]} do not match {cv_line!r}", case=case, observed=desc)
